@@ -454,11 +454,14 @@ def globals : List GlobalSite := [
   -- gate-definition import: (re)binds sys.modules[name] to the module being executed; a reload replaces
   -- the entry, so a later call sees the module text of ITS time.  Not idempotent under failure: if
   -- exec_module raises, the half-initialised entry stays in sys.modules (C16 risk, exercised by corr `history`)
-  ⟨"_import.py", "_jaqal_import_module_relative", "sys_modules_write", "sys.modules[mod_name] = module"⟩,
+  ⟨"_import.py", "_jaqal_import_module_relative", "sys_modules_write", "sys.modules[top_level] = module"⟩,
   -- bookkeeping of which sys.modules entries the relative importer created itself: only those entries are ever
   -- removed or shadowed again (a relative name owned by someone else's module is refused), so the outcome of an
   -- import does not depend on earlier imports; a module that fails while loading is forgotten again
-  ⟨"_import.py", "_jaqal_import_module_relative", "global_object_write", "_relative_modules.add(mod_name)"⟩,
+  ⟨"_import.py", "_jaqal_import_module_relative", "global_object_write", "_relative_modules.add(top_level)"⟩,
+  -- submodules of a dotted relative name are imported through the package just loaded (process-level import
+  -- machinery; everything it registers lies under `top_level.` and is forgotten together with it)
+  ⟨"_import.py", "_jaqal_import_module_relative", "process_state_call", "importlib.import_module(submod_name)"⟩,
   ⟨"_import.py", "_forget_relative_module", "sys_modules_write", "sys.modules.pop(mod_name, None)"⟩,
   ⟨"_import.py", "_forget_relative_module", "sys_modules_delete", "del sys.modules[k]"⟩,
   ⟨"_import.py", "_forget_relative_module", "global_object_write", "_relative_modules.discard(mod_name)"⟩,
